@@ -578,6 +578,7 @@ func (n *node) RouteLinkPID(pid gen.PID, target gen.PID) error {
 		if _, exist := n.processes.Load(target); exist == false {
 			return gen.ErrProcessUnknown
 		}
+		lib.VerifPoint(target, "link:add")
 		return n.targetManager.AddLink(pid, target)
 	}
 
@@ -638,6 +639,7 @@ func (n *node) RouteLinkProcessID(pid gen.PID, target gen.ProcessID) error {
 		if _, exist := n.names.Load(target.Name); exist == false {
 			return gen.ErrProcessUnknown
 		}
+		lib.VerifPoint(target, "link:add")
 		return n.targetManager.AddLink(pid, target)
 	}
 
@@ -695,6 +697,7 @@ func (n *node) RouteLinkAlias(pid gen.PID, target gen.Alias) error {
 		if _, exist := n.aliases.Load(target); exist == false {
 			return gen.ErrAliasUnknown
 		}
+		lib.VerifPoint(target, "link:add")
 		return n.targetManager.AddLink(pid, target)
 	}
 
@@ -760,6 +763,7 @@ func (n *node) RouteLinkEvent(pid gen.PID, target gen.Event) ([]gen.MessageEvent
 		}
 
 		event := value.(*eventOwner)
+		lib.VerifPoint(target, "link:add")
 		if err := n.targetManager.AddLink(pid, target); err != nil {
 			return nil, err
 		}
@@ -877,6 +881,7 @@ func (n *node) RouteMonitorPID(pid gen.PID, target gen.PID) error {
 				return gen.ErrProcessTerminated
 			}
 		}
+		lib.VerifPoint(target, "monitor:add")
 		return n.targetManager.AddMonitor(pid, target)
 	}
 
@@ -940,6 +945,7 @@ func (n *node) RouteMonitorProcessID(pid gen.PID, target gen.ProcessID) error {
 				return gen.ErrProcessTerminated
 			}
 		}
+		lib.VerifPoint(target, "monitor:add")
 		return n.targetManager.AddMonitor(pid, target)
 	}
 
@@ -999,6 +1005,7 @@ func (n *node) RouteMonitorAlias(pid gen.PID, target gen.Alias) error {
 		if _, exist := n.aliases.Load(target); exist == false {
 			return gen.ErrAliasUnknown
 		}
+		lib.VerifPoint(target, "monitor:add")
 		return n.targetManager.AddMonitor(pid, target)
 	}
 
@@ -1063,6 +1070,7 @@ func (n *node) RouteMonitorEvent(pid gen.PID, target gen.Event) ([]gen.MessageEv
 			return nil, gen.ErrEventUnknown
 		}
 		event := value.(*eventOwner)
+		lib.VerifPoint(target, "monitor:add")
 		if err := n.targetManager.AddMonitor(pid, target); err != nil {
 			return nil, err
 		}
